@@ -593,7 +593,7 @@ def py_spec_run(schema_d, docj, opname, variables, world):
     if root is None:
         return {"abort": "operation"}
     if op["op"] == "subscription":
-        return {"internal": "RuntimeError"}
+        return {"abort": "operation"}
     sp = PySpec(schema_d, docj, variables, world)
     try:
         data = sp.execute_selection_set(root, op["sels"], [])
